@@ -13,6 +13,21 @@ import (
 //
 //	0 Add 1 Remove 2 Contains 3 Len 4 Cap 5 Grow 6 Iter 7 Range(stop after arg calls; 0 = never) 8 All(same)
 //	9 Diff 10 Intersect 11 Merge (target op= other)  12 Clone (other := clone of target)
+func c16Same(a, b setz.Bitmap) bool {
+	var la, lb []uint
+	a.Range(func(v uint) bool { la = append(la, v); return true })
+	b.Range(func(v uint) bool { lb = append(lb, v); return true })
+	if len(la) != len(lb) {
+		return false
+	}
+	for i := range la {
+		if la[i] != lb[i] {
+			return false
+		}
+	}
+	return true
+}
+
 func c16Impl(in []int64) []int64 {
 	kind := in[0]
 	var out []int64
@@ -67,12 +82,22 @@ func c16Impl(in []int64) []int64 {
 				}
 				held[t] = s[t].All()
 				out = append(out, PutList(l)...)
-			case 9:
-				s[t].Diff(s[o])
-			case 10:
-				s[t].Intersect(s[o])
-			case 11:
-				s[t].Merge(s[o])
+			case 9, 10, 11:
+				// arg 1 (ignored by the model): when the other set is an equal copy of the receiver (the generator puts a
+				// Clone in front), the receiver ITSELF is passed as the operand: s.Diff(s), s.Intersect(s), s.Merge(s).
+				// The result must be the same as with the equal copy.
+				other := s[o]
+				if a == 1 && s[t].Cap() == s[o].Cap() && s[t].Len() == s[o].Len() && c16Same(s[t].Bitmap, s[o].Bitmap) {
+					other = s[t]
+				}
+				switch c {
+				case 9:
+					s[t].Diff(other)
+				case 10:
+					s[t].Intersect(other)
+				default:
+					s[t].Merge(other)
+				}
 			case 12:
 				// setz.Bits has no Clone of its own: the embedded Bitmap's Clone plus the cached length
 				cl := setz.Bits{Bitmap: s[t].Bitmap.Clone()}
@@ -109,12 +134,19 @@ func c16Impl(in []int64) []int64 {
 				var l []int64
 				s[t].Range(func(v uint) bool { l = append(l, int64(v)); return !(a > 0 && int64(len(l)) >= a) })
 				out = append(out, PutList(l)...)
-			case 9:
-				s[t].Diff(s[o])
-			case 10:
-				s[t].Intersect(s[o])
-			case 11:
-				s[t].Merge(s[o])
+			case 9, 10, 11:
+				other := s[o]
+				if a == 1 && s[t].Cap() == s[o].Cap() && c16Same(s[t], s[o]) { // see kind 0
+					other = s[t]
+				}
+				switch c {
+				case 9:
+					s[t].Diff(other)
+				case 10:
+					s[t].Intersect(other)
+				default:
+					s[t].Merge(other)
+				}
 			case 12:
 				s[o] = s[t].Clone()
 			}
@@ -269,6 +301,11 @@ func c16Gen(c *Ctx) {
 			if kind != 2 && (code == 1 || code == 2) && r.Intn(12) == 0 { // (the dsz model walks to the word index: not for huge values)
 				a = []int64{-1, -2, -64, -65, -(1 << 60), -(1 << 32), 1 << 60, 1<<60 + 63, 1 << 40, 1<<32 + 1}[r.Intn(10)]
 			}
+			if code >= 9 && code <= 11 && kind != 2 && r.Intn(4) == 0 { // the receiver as its own operand (after a Clone)
+				in = append(in, 12, tgt, 0)
+				a = 1
+				t.C.Count("op", "self-operand")
+			}
 			in = append(in, code, tgt, a)
 			kinds[code] = true
 			t.C.Count("op", c16Names[code])
@@ -363,7 +400,7 @@ func c16Describe(in []int64) string {
 }
 
 func init() {
-	Register(&Prop{ID: "C16", Num: 16, SpecMode: "equal", Gen: c16Gen, Impl: c16Impl,
+	Register(&Prop{ID: "C16", Pure: true, Num: 16, SpecMode: "equal", Gen: c16Gen, Impl: c16Impl,
 		Shrink: c16Shrink, Describe: c16Describe,
 		Rule: "exhaustive: every op sequence up to the tier's length over values {0,1,62,63,64,65,127,128,129} (word boundaries) for setz.Bits, setz.Bitmap, dsz.Bits, followed by Len+Iter; random: 5-60 ops over two sets of different word counts mixing element and bulk ops. distinct = distinct op sequence; non-trivial = at least 2 operations of at least 2 kinds before the final observation"})
 }
